@@ -25,6 +25,7 @@ type LoopSpec struct {
 
 type FuncContract struct {
 	Key      string // "Recv.Name" or "Name" (package-local)
+	RecvName string
 	PkgPath  string
 	Requires []*Clause
 	Ensures  []*Clause
@@ -125,7 +126,7 @@ func readContractLines(path string) ([]cline, error) {
 	return out, nil
 }
 
-var funcHdrRe = regexp.MustCompile(`^(?:\(\s*\w+\s+\*?([\w./\-]+)\s*\)\s*)?([\w$]+)(?:\((.*?)\))?(?:\s*\((.*?)\))?\s*$`)
+var funcHdrRe = regexp.MustCompile(`^(?:\(\s*(\w+)\s+\*?([\w./\-]+)\s*\)\s*)?([\w$]+)(?:\((.*?)\))?(?:\s*\((.*?)\))?\s*$`)
 
 func (cs *ContractSet) LoadFile(path, pkgPath string) error {
 	lines, err := readContractLines(path)
@@ -150,30 +151,30 @@ func (cs *ContractSet) LoadFile(path, pkgPath string) error {
 			if m == nil {
 				return fmt.Errorf("%s:%d: bad func header %q", path, l.line, l.rest)
 			}
-			key := m[2]
-			if m[1] != "" {
-				recv := m[1]
+			key := m[3]
+			if m[2] != "" {
+				recv := m[2]
 				if k := strings.LastIndex(recv, "."); k >= 0 && l.kw == "func" {
 					recv = recv[k+1:]
 				}
-				key = recv + "." + m[2]
+				key = recv + "." + m[3]
 			}
-			cur = &FuncContract{Key: key, PkgPath: pkgPath, Loops: map[int]*LoopSpec{}, Flags: map[string]string{}, Asserts: map[int][]*Clause{}, File: path, Line: l.line}
+			cur = &FuncContract{RecvName: m[1], Key: key, PkgPath: pkgPath, Loops: map[int]*LoopSpec{}, Flags: map[string]string{}, Asserts: map[int][]*Clause{}, File: path, Line: l.line}
 			full := pkgPath + "." + key
 			if l.kw == "extern" {
 				cur.Extern = true
 				full = key // extern keys are fully qualified by the author: "pkgpath.Type.Method" given via recv
-				if m[1] != "" {
-					full = m[1] + "." + m[2]
+				if m[2] != "" {
+					full = m[2] + "." + m[3]
 				}
 				cur.Key = full
-				if m[3] != "" {
-					for _, p := range strings.Split(m[3], ",") {
+				if m[4] != "" {
+					for _, p := range strings.Split(m[4], ",") {
 						cur.Params = append(cur.Params, strings.TrimSpace(p))
 					}
 				}
-				if m[4] != "" {
-					for _, p := range strings.Split(m[4], ",") {
+				if m[5] != "" {
+					for _, p := range strings.Split(m[5], ",") {
 						cur.Results = append(cur.Results, strings.TrimSpace(p))
 					}
 				}
